@@ -185,6 +185,14 @@ Definition step_grid_ok (grid : list Q) (n : nat) : bool :=
 
 Definition memb (t : nat) (l : list nat) : bool := existsb (Nat.eqb t) l.
 
+(* the documented partition computed from the node NUMBERS: node 0 -> step 0; node k>0 -> the i with
+   i(N-1) < k n <= (i+1)(N-1), i.e. ceil(k n/(N-1)) - 1.  This is what the interval tests give in exact arithmetic
+   on every regular grid (Proofs/C13_StepQ.v) and what the proposed repair fixes/C13_step_partition.diff computes *)
+Definition step_of (N n k : nat) : nat := if (k =? 0)%nat then 0%nat else ((k * n + (N - 1) - 1) / (N - 1) - 1)%nat.
+Definition idx_of_fun (N n : nat) (s : nat -> nat) : list (list nat) :=
+  map (fun i => filter (fun k => (s k =? i)%nat) (seq 0 N)) (seq 0 n).
+Definition step_indices_ideal (N n : nat) : list (list nat) := idx_of_fun N n (step_of N n).
+
 (* fun = zeros; for i: fun[indices[i]] = p[i]  -- the last step containing a node wins, a node in
    no step keeps 0 *)
 Definition step_node_value (idx : list (list nat)) (p : list Qc) (t : nat) : Qc :=
@@ -411,6 +419,10 @@ Definition step_init_Q (grid : list Q) (n : nat) : option (list (list nat)) :=
   if step_grid_ok grid n then Some (step_indices_Q grid n) else None.
 Definition check_step_init_Q (grid : list Q) (n : nat) (observed : option (list (list nat))) : bool :=
   opt_eqb natll_eqb observed (step_init_Q grid n).
+
+(* the repaired StepExpansion.__init__ (node-number partition) *)
+Definition check_step_init_ideal (N n : nat) (observed : list (list nat)) : bool :=
+  natll_eqb observed (step_indices_ideal N n).
 
 Inductive sop := Sfunvals | Svector | Sparameters.
 Definition samples_apply (op : sop) (g : geom) (S : samples) : option samples :=
